@@ -1366,3 +1366,80 @@ func c14r13(rc *core.RC) {
 		rc.Unknown("encoder/opcode-types", token.NoPos, "found %d places where a compiler node writes Opcode.Type (confirmed: 5)", n)
 	}
 }
+
+// ---- C14.R14 a decoder fetched for the type in an interface word runs on that word's data ----
+
+// Where the library decodes into what an interface holds it takes the two words of the interface apart (typ, ptr),
+// fetches the decoder compiled for typ and runs it on ptr: the decoder of *T writes a *T. Handing it any other
+// address (the address of the interface variable itself, p) makes the decoder of one type write over a value of
+// another: T's fields land on the interface's type and data words. Obligation, for every Decode/DecodeStream call on a
+// decoder obtained from CompileToGetDecoder(H.typ) with H a local header: the destination argument is H.ptr.
+func c14r14(rc *core.RC) {
+	p := rc.P
+	n := 0
+	for _, short := range []string{"decoder", "json"} {
+		pk := p.Pkg(short)
+		if pk == nil {
+			continue
+		}
+		info := pk.TypesInfo
+		for _, fd := range p.Funcs(short) {
+			if fd.Body == nil {
+				continue
+			}
+			name := p.FuncName(fd)
+			// decoder variables and the header they were fetched for
+			fetched := map[types.Object]string{}
+			ast.Inspect(fd.Body, func(m ast.Node) bool {
+				as, ok := m.(*ast.AssignStmt)
+				if !ok || len(as.Rhs) != 1 || len(as.Lhs) != 2 {
+					return true
+				}
+				c, ok := core.Unparen(as.Rhs[0]).(*ast.CallExpr)
+				if !ok || core.CalleeName(info, c) != "decoder.CompileToGetDecoder" || len(c.Args) != 1 {
+					return true
+				}
+				t := core.Unparen(core.ResolveSingleDef(info, fd.Body, c.Args[0]))
+				sel, ok := t.(*ast.SelectorExpr)
+				if !ok || sel.Sel.Name != "typ" {
+					return true
+				}
+				if o := core.ObjOf(info, as.Lhs[0]); o != nil {
+					fetched[o] = types.ExprString(sel.X)
+				}
+				return true
+			})
+			if len(fetched) == 0 {
+				continue
+			}
+			k := 0
+			ast.Inspect(fd.Body, func(m ast.Node) bool {
+				c, ok := m.(*ast.CallExpr)
+				if !ok || len(c.Args) == 0 {
+					return true
+				}
+				sel, ok := c.Fun.(*ast.SelectorExpr)
+				if !ok || (sel.Sel.Name != "Decode" && sel.Sel.Name != "DecodeStream") {
+					return true
+				}
+				hdr, ok := fetched[core.ObjOf(info, sel.X)]
+				if !ok {
+					return true
+				}
+				k++
+				n++
+				rc.Touch(name)
+				dstE := core.Unparen(c.Args[len(c.Args)-1])
+				if w, isCall := dstE.(*ast.CallExpr); isCall && len(w.Args) == 1 && strings.HasSuffix(core.CalleeName(info, w), ".noescape") {
+					dstE = core.Unparen(w.Args[0]) // the identity that hides the pointer from escape analysis
+				}
+				dst := types.ExprString(dstE)
+				rc.Check(dst == hdr+".ptr", fmt.Sprintf("%s/fetched-decoder#%d runs-on-the-word's-data", name, k), c.Pos(), "the decoder fetched for %s.typ is run on %s: it has to be %s.ptr, the memory of that type (any other address, the interface variable itself included, is a value of another type that the decoder writes over)", hdr, dst, hdr)
+				return true
+			})
+		}
+	}
+	if n < 4 {
+		rc.Unknown("module/fetched-decoders", token.NoPos, "found %d runs of a decoder fetched for the type word of an interface header (confirmed: 6)", n)
+	}
+}
